@@ -33,7 +33,10 @@ CHECKS = {
        "out-of-bounds access, and length+1 steps always suffice (termination). The six command tables and the index ranges every payload accessor reads are REGENERATED "
        "from /repo's source on every run by tools/rs2v/cmdtables.py, and a computed sweep proves every accessor range lies inside the length the framing guarantees. "
        "Frame parsers: a successful parse puts every offset inside the buffer. Tied to the code by exhaustive sweeps of all strings up to 2 (quick) / 3 (thorough, 16.8 M x 6 sets) "
-       "bytes through all six iterators with every accessor called under catch_unwind, every CID x truncation point, mutated 255-byte streams, and the frame parsers.",
+       "bytes through all six iterators with every accessor called under catch_unwind, every CID x truncation point, mutated 255-byte streams, and the frame parsers. "
+       "The public payload constructors (a second way to obtain a view): C03_fixed_constructor_view (macro template: exactly len bytes), C03_mcgroupstatus_constructor_view / "
+       "_refuses_short / C03_constructor_matches_iterator (the view is the status byte plus one whole 5-byte item per bit of AnsGroupMask, as long as the stream iterator makes it; "
+       "shorter input is refused), tied to the code over every status byte x lengths 0..23 with every accessor called and an independent TS005 oracle.",
   note=COMMON_NOTE + "The proc-macro itself is not verified: its generated behaviour is modelled generically (Model/MacCmd.v) and tied by the exhaustive differential run; its table input is tied by the translator (trusted python, ~200 lines). Memory safety of safe Rust is the compiler's business.",
   tech="machine-checked proof in Coq (generic over command tables) + translator-regenerated tables/index sets + exhaustive short-string correspondence", ref="6 C03"),
  "C17": dict(
@@ -111,7 +114,8 @@ CHECKS = {
  "C07": dict(
   text="Coq theorems (Props/C07.v): for every session state, configuration, channel plan and byte string: if the reference codec does not accept the frame (spec_accepts: "
        "reference MIC + freshness) and it is not oversized, handle_rx returns EXACTLY the same session, configuration, region and buffer with response NoUpdate (state equality, "
-       "hence twin runs stay equal at every step); an oversized frame only ends a Class A window like a timeout and is ignored in Class C; an invalid JoinAccept leaves the MAC "
+       "hence twin runs stay equal at every step; C07_rejected_frame_keeps_the_downlink_queue: nor is the application's queue of uncollected downlinks touched); an oversized "
+       "frame only ends a Class A window like a timeout and is ignored in Class C; an invalid JoinAccept leaves the MAC "
        "unchanged. Tied to the code by model/implementation MAC histories and by running twin histories on the implementation that differ only by frames rejected by "
        "construction (random bytes, replays, other-session frames, MIC flips, far-future, wrong-key JoinAccepts, forged MAC commands) inserted at receive opportunities of "
        "histories that create sticky answers / owed ACKs / ADR counts, comparing every later output and state snapshot. Through the front-ends (Model/AsyncDev.v, Model/NbDev.v): "
@@ -128,13 +132,16 @@ CHECKS = {
   text="Coq theorems (Props/C08.v) about the model of handle_downlink_macs, for all states and command bytes: RXParamSetupReq: answer 0b111 iff frequency in band, RX1 offset within "
        "the region's limit and RX2 data rate defined (15 = keep), then exactly those three fields change, otherwise the configuration is unchanged; RXTimingSetupReq sets exactly the "
        "RX1 delay (0,1 -> 1 s); DlChannelReq / NewChannelReq: any NAK bit => channel plan identical, full ACK => exactly the commanded channel change; LinkADRReq blocks: one identical "
-       "answer per request, 0b111 => data rate, power and mask applied exactly (15 = keep), otherwise configuration and plan untouched, an RFU ChMaskCntl never ACKed (C08_dynamic_plan_rejects_rfu_chmaskcntl: in the 16-channel plans every value but 0 and 6, alone or as the last request of a block; C08_rfu_chmaskcntl_poisons_the_block / C08_block_poison_persists / C08_poisoned_block_is_rejected: anywhere inside a block it makes the whole block rejected); answers are whole "
+       "answer per request, 0b111 => data rate, power and mask applied exactly (15 = keep), otherwise configuration and plan untouched, an RFU ChMaskCntl never ACKed (C08_dynamic_plan_rejects_rfu_chmaskcntl: in the 16-channel plans every value but 0 and 6, alone or as the last request of a block; C08_rfu_chmaskcntl_poisons_the_block / C08_block_poison_persists / C08_poisoned_block_is_rejected: anywhere inside a block it makes the whole block rejected; C08_linkadr_keep_is_the_live_configuration: 15 = keep in a later request of the same downlink means the "
+       "value in force at that point of the sequence); answers are whole "
        "commands within 15 bytes, queued in request order, and once one is dropped all later ones are dropped; sticky answers = exactly the whole DlChannelAns/RXParamSetupAns/"
        "RXTimingSetupAns; C08_accepted_linkadr_governs_next_uplink: once an accepted LinkADRReq has set the mask, the next data uplink is chosen through that mask at the configured data "
        "rate from EVERY region state (a fixed plan in the middle of a join-sub-band bias included). Tied to the code by model/implementation histories enumerating the field values of the "
        "six handled requests per region (FOpts and port 0, blocks, mixtures, sequences of downlinks; fixed plans with a join bias: OTAA join, first data uplinks, LinkADRReq repeating or "
        "changing the mask) with state snapshots, and an independent oracle decoding the next two uplinks (order, copies, sticky) and checking ACK => effect / NAK => unchanged on the snapshot "
-       "and on the data rate of the very next transmission.",
+       "and on the data rate of the very next transmission; for downlinks carrying several requests the oracle applies the fully acknowledged LinkADRReq blocks, "
+       "RXParamSetupReq and RXTimingSetupReq in sequence and compares data rate, 'power kept', RX1 delay / offset and RX2 parameters with the snapshot; NewChannelReq aimed at "
+       "a default channel must not be fully acknowledged (RP002).",
   note=COMMON_NOTE + "Regional validity (band limits, defined data rates, offset limits) in the theorems refers to the tables regenerated from /repo by tools/rs2v/regiontables.py; TX power index ranges likewise. NbTrans is not implemented by the stack and not judged.",
   tech="machine-checked proof in Coq (per-command atomicity lemmas) + translator-regenerated regional tables + exhaustive-field MAC-history correspondence + independent answer/effect oracle", ref="6 C08"),
  "C09": dict(
